@@ -43,6 +43,7 @@ def install(B):
     reg("EnumConst", lambda ip, a, k: Shape("enumconst", a[0], a[1]))
     reg("Elem", lambda ip, a, k: Shape("elem", a[0], **k))
     reg("Instance", lambda ip, a, k: Shape("instance", a[0], **k))
+    reg("AssocOf", lambda ip, a, k: Shape("assoc", *a))
     reg("MapOf", lambda ip, a, k: Shape("map", a[0], a[1]))
     reg("SetOf", lambda ip, a, k: Shape("pset", a[0]))
     reg("contract", lambda ip, a, k: I.PyFn("contract-deco", lambda ip2, a2, k2: a2[0]))
@@ -236,6 +237,17 @@ class Maker:
             if isinstance(base, Sym):
                 self.side.append(base.t >= 0)
             return ip.B.ElemV(sh.a[0], dict(attrib), base)
+        if k == "assoc":
+            # a dict with the given (key shape, value shape) entries; keys pairwise distinct
+            items = [(self.make(ks, f"{name}.k{i}", idx), self.make(vs, f"{name}.v{i}", idx)) for i, (ks, vs) in enumerate(sh.a)]
+            for i in range(len(items)):
+                for j in range(i):
+                    e = ip.eq(items[i][0], items[j][0])
+                    if e is True:
+                        raise EngineError("AssocOf: equal keys")
+                    if e is not False:
+                        self.side.append(z3.Not(to_bool_term(e)))
+            return I.AssocV(items)
         if k == "instance":
             cls = resolve_class(ip, sh.a[0])
             return Rec(cls, {f: self.make(s, f"{name}.{f}", idx) for f, s in sh.k.items()}, mutable=True)
